@@ -31,8 +31,8 @@ from . import hist
 GEN_FILES = []
 DRIVERS = ["remap"]
 THEOREMS = ["C15_comparator_sound", "C15_print_parse", "C15_decline_safe", "C15_truncation_safe",
-            "C15_partial_pairs_decline", "C15_remap_base_only", "C15_remap_note_base_only",
-            "C15_remap_refuted", "C15_nonvacuous"]
+            "C15_partial_pairs_decline", "C15_shortcut_writes", "C15_remap_field_only", "C15_remap_base_only",
+            "C15_remap_note_base_only", "C15_remap_refuted", "C15_nonvacuous"]
 CLAIM = {
     "text": "Partial proof + system-level differential oracle. Proved (closed, all byte strings): the comparator's "
             "scanning loop answers `match` on a printed diff-tree output iff no pair has a record (and the pathspec-"
@@ -44,8 +44,10 @@ CLAIM = {
             "(C15_remap_refuted, checked on the real function). Equivalence with the full content replay is decided "
             "by running every generated rewrite twice (shortcut on / off) from a copy of the same repository.",
     "design_ref": "DESIGN.md §4 C15",
-    "note": "The full equality is false today on multi-commit ranges (known class C15-K1: the slow path's notes are "
-            "cumulative); the restricted equality and blame equality are the oracle there.",
+    "note": "The full equality is false today (known classes: K1 the slow path's notes are cumulative, K2 it loses or "
+            "re-colours lines that do not survive to the end of the range, K3 its prompt counters are not the original "
+            "commit's, K4 the byte-level rewrite hits a path line that contains the marker text); the restricted "
+            "equality and blame equality are the oracle there.",
     "technique": "Coq proof over extracted model + in-process correspondence + system-level A/B differential",
 }
 TRUSTED_BASE = [
@@ -59,7 +61,8 @@ TRUSTED_BASE = [
 ]
 ASSUMPTIONS = [
     "commit dates pinned: the rewritten commits have the same ids in copy A and copy B (checked per scenario)",
-    "tracked paths do not start with ':' (pathspec magic) — see the probe in coverage",
+    "line texts are pairwise distinct in a scenario (World), so 'the line survives to the end of the range' is "
+    "decided by text membership",
 ]
 
 FIRE_LINE = "Fast-path remapped authorship logs for"
@@ -104,6 +107,7 @@ subprocess.check_call(["/usr/bin/git", "commit", "-q", "-a", "--amend", "--no-ed
 '''
 
 
+
 # ------------------------------------------------------------------ note comparison
 def note_sets(n):
     out = {}
@@ -114,21 +118,22 @@ def note_sets(n):
     return out
 
 
-def restrict(sets, added):
+def restrict(sets, keep):
     out = {}
     for p, hs in sets.items():
         for h, ls in hs.items():
-            s = set(ls) & set(added.get(p, ()))
+            s = set(ls) & set(keep.get(p, ()))
             if s:
                 out.setdefault(p, {})[h] = s
     return out
 
 
 IDENT = ("agent_id", "human_author", "messages", "messages_url")
+COUNTERS = ("total_additions", "total_deletions", "accepted_lines", "overriden_lines")
 
 
 def prompt_ident(prompts, hashes):
-    return {h: {k: v for k, v in prompts.get(h, {}).items() if k in IDENT} if h in prompts else None
+    return {h: ({k: v for k, v in prompts[h].items() if k in IDENT} if h in prompts else None)
             for h in sorted(hashes)}
 
 
@@ -136,39 +141,68 @@ def jsets(d):
     return {p: {h: sorted(s) for h, s in v.items()} for p, v in d.items()}
 
 
-def compare_notes(na, nb, sha, added):
-    """-> (full_ok, restricted_ok, detail)"""
+def compare_notes(na, nb, sha, added, surviving):
+    """-> dict(full, restricted, classes, bad, detail).  `bad` lists differences outside every known class."""
+    res = {"full": True, "restricted": True, "classes": [], "bad": [], "detail": {}}
     if na is None or nb is None:
-        same = na is None and nb is None
-        return same, same, {"missing": {"A": na is None, "B": nb is None}}
-    detail = {}
-    sa, sb = note_sets(na), note_sets(nb)
-    full = True
+        if not (na is None and nb is None):
+            res["full"] = res["restricted"] = False
+            res["bad"].append("note missing in " + ("A" if na is None else "B"))
+        return res
+    d = res["detail"]
     if not na["ok"] or not nb["ok"] or na["problems"] or nb["problems"]:
-        full = False
-        detail["malformed"] = {"A": na["problems"], "B": nb["problems"]}
-    if sa != sb:
-        full = False
-        detail["lines"] = {"A": jsets(sa), "B": jsets(sb)}
-    if na["prompts"] != nb["prompts"]:
-        full = False
-        detail["prompts_differ"] = sorted(set(na["prompts"]) ^ set(nb["prompts"])) or "records"
+        res["full"] = res["restricted"] = False
+        res["bad"].append("malformed note")
+        d["malformed"] = {"A": na["problems"], "B": nb["problems"]}
+        return res
     if na["base"] != sha or nb["base"] != sha:
-        full = False
-        detail["base"] = {"A": na["base"], "B": nb["base"], "want": sha}
+        res["full"] = res["restricted"] = False
+        res["bad"].append("base_commit_sha is not the annotated commit")
+        d["base"] = {"A": na["base"], "B": nb["base"], "want": sha}
+    sa, sb = note_sets(na), note_sets(nb)
     ra, rb = restrict(sa, added), restrict(sb, added)
-    restricted = (na["ok"] and nb["ok"] and ra == rb and na["base"] == sha and nb["base"] == sha)
-    ha = set(h for v in ra.values() for h in v)
-    hb = set(h for v in rb.values() for h in v)
-    if prompt_ident(na["prompts"], ha) != prompt_ident(nb["prompts"], hb):
-        restricted = False
-        detail["restricted_prompts"] = {"A": prompt_ident(na["prompts"], ha), "B": prompt_ident(nb["prompts"], hb)}
-    if ra != rb:
-        detail["restricted_lines"] = {"A": jsets(ra), "B": jsets(rb), "added": {p: sorted(v) for p, v in added.items()}}
-    return full, restricted, detail
+    va, vb = restrict(sa, surviving), restrict(sb, surviving)
+    if sa != sb:
+        res["full"] = False
+        d["lines"] = {"A": jsets(sa), "B": jsets(sb)}
+        if ra == rb:
+            res["classes"].append("K1")
+        else:
+            res["restricted"] = False
+            d["restricted_lines"] = {"A": jsets(ra), "B": jsets(rb), "added": {p: sorted(v) for p, v in added.items()}}
+            if va == vb:
+                res["classes"].append("K2")
+                if restrict(sa, added) != sa or restrict(sb, added) != sb:
+                    res["classes"].append("K1")
+            else:
+                res["bad"].append("line sets differ on added lines that survive to the end of the range")
+                d["surviving_lines"] = {"A": jsets(va), "B": jsets(vb)}
+    pa, pb = na["prompts"], nb["prompts"]
+    if pa != pb:
+        res["full"] = False
+        ha = set(h for v in va.values() for h in v)
+        hb = set(h for v in vb.values() for h in v)
+        if prompt_ident(pa, ha) != prompt_ident(pb, hb) or None in prompt_ident(pa, ha).values():
+            res["restricted"] = False
+            res["bad"].append("prompt records (identity fields) of the sessions named on surviving added lines differ")
+            d["prompt_ident"] = {"A": prompt_ident(pa, ha), "B": prompt_ident(pb, hb)}
+        if set(pa) != set(pb):
+            if "K1" not in res["classes"]:
+                res["classes"].append("K1")
+            d["prompt_keys"] = {"only_A": sorted(set(pa) - set(pb)), "only_B": sorted(set(pb) - set(pa))}
+        for h in set(pa) & set(pb):
+            if pa[h] != pb[h]:
+                keys = [k for k in set(pa[h]) | set(pb[h]) if pa[h].get(k) != pb[h].get(k)]
+                if all(k in COUNTERS for k in keys):
+                    if "K3" not in res["classes"]:
+                        res["classes"].append("K3")
+                    d.setdefault("counters", {})[h] = {k: [pa[h].get(k), pb[h].get(k)] for k in keys}
+                else:
+                    res["bad"].append(f"prompt record {h} differs in {sorted(keys)}")
+    return res
 
 
-# ------------------------------------------------------------------ raw diff-tree parser (independent of the model)
+# ------------------------------------------------------------------ raw diff-tree format (independent of the model)
 def parse_raw_z(data, npairs):
     """strict parser of `diff-tree --stdin --raw -z --no-abbrev -r` for tree pairs.
     -> list of (header, [record dict]) or None when irregular"""
@@ -201,9 +235,29 @@ def parse_raw_z(data, npairs):
                     return None
                 p2 = data[pos:z]
                 pos = z + 1
-            recs.append({"meta": [x.decode() for x in f], "path": p1, "path2": p2})
+            recs.append({"meta": f, "path": p1, "path2": p2})
         out.append((hdr, recs))
-    return out if len(out) == npairs else None
+    return out if (npairs is None or len(out) == npairs) else None
+
+
+def print_raw_z(secs):
+    out = b""
+    for hdr, recs in secs:
+        out += hdr + b"\n"
+        for r in recs:
+            out += b":" + b" ".join(r["meta"]) + b"\0" + r["path"] + b"\0"
+            if r["path2"] is not None:
+                out += r["path2"] + b"\0"
+    return out
+
+
+def bl(b):
+    return list(b)
+
+
+def secs_sx(secs):
+    return [[bl(h), [[bl(x) for x in r["meta"]] + [bl(r["path"]), ([bl(r["path2"])] if r["path2"] is not None else [])]
+                     for r in recs]] for h, recs in secs]
 
 
 # ------------------------------------------------------------------ scenario
@@ -216,22 +270,42 @@ def _rev_list(sim, rng):
     return out.split() if rc == 0 else []
 
 
+def _raw(sim, *args):
+    import subprocess
+    p = subprocess.run(["/usr/bin/git"] + list(args), cwd=sim.repo, env=sim.env(), stdout=subprocess.PIPE,
+                       stderr=subprocess.DEVNULL)
+    return p.stdout if p.returncode == 0 else None
+
+
 def _note_blob(sim, sha):
     for blob, obj in sim.notes_list():
         if obj == sha:
-            rc, _, _ = sim.realgit("cat-file", "-e", blob)
-            p = __import__("subprocess").run(["/usr/bin/git", "cat-file", "blob", blob], cwd=sim.repo, env=sim.env(),
-                                             stdout=__import__("subprocess").PIPE)
-            return p.stdout
+            return _raw(sim, "cat-file", "blob", blob)
     return None
+
+
+def _lines_at(sim, sha, path):
+    t = sim.file_at(sha, path)
+    if t is None:
+        return []
+    return t.split("\n")[:-1] if t.endswith("\n") else t.split("\n")
 
 
 def _blame_all(sim, rev):
     res = {}
     for p in sim.ls_files_at(rev):
-        bl = sim.blame(p, rev=rev)
-        res[p] = None if bl is None else {str(k): v for k, v in sorted(bl.items())}
+        b_ = sim.blame(p, rev=rev)
+        res[p] = None if b_ is None else {k: v for k, v in sorted(b_.items())}
     return res
+
+
+def _ai_touched(sim, shas):
+    out = set()
+    for s in shas:
+        n = sim.note(s)
+        if n:
+            out |= set(p for p, hs in n["files"].items() if any(hs.values()))
+    return out
 
 
 def scenario(args):
@@ -240,7 +314,7 @@ def scenario(args):
     r = C.Rng(seed).fork(f"c15-{kind}-{idx}")
     simA = Sim(base, f"s-{kind}-{idx}-A")
     w = World(simA, r)
-    res = {"idx": idx, "kind": kind, "failures": [], "known": [], "info": {}}
+    res = {"idx": idx, "kind": kind, "failures": [], "known": [], "info": {}, "opts": opts}
     simB = None
     try:
         tracked = r.shuffle(TRACKED_POOL)[:r.range(2, 4)]
@@ -248,8 +322,9 @@ def scenario(args):
         simA.init(_fresh_files(r, w, tracked + others))
         ncom = opts.get("ncom") or r.range(1, 4)
         is_cherry = kind.startswith("cherry")
-        ai_files = tracked[:-1] if kind.endswith("untracked_only") else tracked
-        human_only = tracked[-1] if kind.endswith("untracked_only") else None
+        untracked_only = kind.endswith("untracked_only")
+        ai_files = tracked[:-1] if untracked_only else tracked
+        human_only = tracked[-1] if untracked_only else None
         # ---- feature branch
         w.git("switch", "-q", "-c", "feature")
         for k in range(ncom):
@@ -266,17 +341,22 @@ def scenario(args):
             if r.chance(1, 4):
                 w.op_edit(actor="H", path=r.pick(others), region="bottom", kinds=("ins",))
             w.op_commit()
+        originals = _rev_list(simA, "main..feature")
+        touched = sorted(_ai_touched(simA, originals) & set(ai_files))
+        res["info"]["touched"] = touched
+        if not touched:
+            res["info"]["skipped"] = "no AI-touched file in the range"
+            return res
         # ---- upstream
         w.git("switch", "-q", "main")
         for _ in range(r.range(1, 2)):
             if kind.endswith("tracked_upstream"):
-                w.op_edit(actor=r.pick(["H", "H", "s1"]), path=r.pick(ai_files), region="top", kinds=("ins",))
-            elif kind.endswith("untracked_only"):
+                w.op_edit(actor=r.pick(["H", "H", "s1"]), path=r.pick(touched), region="top", kinds=("ins",))
+            elif untracked_only:
                 w.op_edit(actor="H", path=human_only, region="top", kinds=("ins",))
             else:
                 w.op_edit(actor=r.pick(["H", "H", "s2"]), path=r.pick(others), region="top", kinds=("ins",))
             w.op_commit()
-        originals = _rev_list(simA, "main..feature")
         old_main = simA.head()
         env = {"GIT_EDITOR": "true", "GIT_AI_DEBUG": "1", "GIT_AI_DEBUG_PERFORMANCE": "1"}
         if is_cherry:
@@ -285,12 +365,7 @@ def scenario(args):
             w.git("switch", "-q", "feature")
             op = ["rebase", "main"]
             if kind == "rebase_exec_k":
-                k = opts["k"]
-                target = tracked[0]
-                step = os.path.join(simA.base, "step.py")
-                open(step, "w").write(EXEC_STEP % target)
-                ed = os.path.join(simA.base, "seqed.py")
-                open(ed, "w").write(EXEC_EDITOR % (k, "step.py", "step.py"))
+                open(os.path.join(simA.base, "step.py"), "w").write(EXEC_STEP % r.pick(touched))
                 op = ["rebase", "-i", "main"]
         orig_notes = {s: _note_blob(simA, s) for s in originals}
         # ---- copy, then run the operation in both
@@ -302,11 +377,10 @@ def scenario(args):
         for tag, sim in (("A", simA), ("B", simB)):
             e = dict(env)
             if kind == "rebase_exec_k":
-                e["GIT_SEQUENCE_EDITOR"] = f"python3 {shlex.quote(os.path.join(sim.base, 'seqed.py'))}"
-                # the exec lines run with cwd = work tree; step.py is addressed relative to sim.base
-                txt = open(os.path.join(sim.base, "seqed.py")).read().replace(
-                    "step.py", os.path.join(sim.base, "step.py"))
-                open(os.path.join(sim.base, "seqed.py"), "w").write(txt)
+                step = os.path.join(sim.base, "step.py")
+                ed = os.path.join(sim.base, "seqed.py")
+                open(ed, "w").write(EXEC_EDITOR % (min(opts["k"], len(originals)), step, step))
+                e["GIT_SEQUENCE_EDITOR"] = f"python3 {shlex.quote(ed)}"
             dump = os.path.join(sim.base, "difftree.jsonl")
             e["GIT_AI_VERIF_DIFFTREE_DUMP"] = dump
             if tag == "B":
@@ -319,45 +393,36 @@ def scenario(args):
             out[tag] = {"rc": rc, "err": err, "new": news, "fired": FIRE_LINE in err,
                         "cmp_true": CMP_TRUE_LINE in err, "dumps": dumps}
         A, B = out["A"], out["B"]
-        res["info"].update({"rc": [A["rc"], B["rc"]], "ncom": ncom, "fired": A["fired"], "cmp_true": A["cmp_true"],
-                            "n_new": len(A["new"]), "files": tracked, "k": opts.get("k")})
+        res["info"].update({"rc": [A["rc"], B["rc"]], "ncom": len(originals), "fired": A["fired"],
+                            "cmp_true": A["cmp_true"], "n_new": len(A["new"]), "files": tracked, "k": opts.get("k")})
         if A["rc"] != 0 or B["rc"] != 0:
-            res["info"]["op_failed"] = (A["err"][-300:], B["err"][-300:])
+            res["info"]["skipped"] = "operation stopped (conflict)"
             return res
         if B["fired"] or B["dumps"]:
             res["failures"].append({"what": "the switch GIT_AI_VERIF_NO_FAST_PATH did not disable the shortcut"})
-        if A["new"] != B["new"]:
-            res["info"]["sha_differ"] = True
-            if len(A["new"]) != len(B["new"]):
-                res["failures"].append({"what": "different number of rewritten commits in A and B"})
-                return res
         res["info"]["same_shas"] = A["new"] == B["new"]
-        # ---- comparator: expected decision from an unrestricted diff-tree (independent of the model)
+        if len(A["new"]) != len(B["new"]) or len(A["new"]) != len(originals):
+            res["failures"].append({"what": "unexpected number of rewritten commits",
+                                    "A": len(A["new"]), "B": len(B["new"]), "originals": len(originals)})
+            return res
+        # ---- comparator: expected decision from unrestricted tree comparisons (independent of the model)
         cmp_cases = []
         for d in A["dumps"]:
             pairs, trk = d["pairs"], d["tracked"]
             raw = bytes.fromhex(d["out_hex"])
             exp = True
             for l_, r_ in pairs:
-                p = __import__("subprocess").run(["/usr/bin/git", "diff-tree", "-r", "--raw", "-z", "--no-abbrev",
-                                                  l_ + "^{tree}", r_ + "^{tree}"], cwd=simA.repo, env=simA.env(),
-                                                 stdout=__import__("subprocess").PIPE)
-                toks = p.stdout.split(b"\0")
+                o_ = _raw(simA, "diff-tree", "-r", "--raw", "-z", "--no-abbrev", l_ + "^{tree}", r_ + "^{tree}") or b""
+                toks = o_.split(b"\0")
                 changed = set(toks[i + 1].decode("utf-8", "replace") for i in range(0, len(toks) - 1, 2))
                 if changed & set(trk):
                     exp = False
             parsed = parse_raw_z(raw, len(pairs))
             rec_paths_ok = parsed is not None and all(
                 rec["path"].decode("utf-8", "replace") in trk for _, recs in parsed for rec in recs)
-            first_delta = None
-            if parsed:
-                for i_, (_, recs) in enumerate(parsed):
-                    if recs:
-                        first_delta = i_ + 1
-                        break
             cmp_cases.append({"npairs": len(pairs), "out_hex": d["out_hex"], "expected": exp,
                               "actual": A["cmp_true"], "parsed": parsed is not None, "rec_paths_ok": rec_paths_ok,
-                              "first_delta": first_delta, "tracked": trk,
+                              "tracked": trk, "sorted_tracked_is_touched": sorted(trk) == touched,
                               "pairs_with_delta": [i_ + 1 for i_, (_, recs) in enumerate(parsed or []) if recs]})
             if exp != A["cmp_true"]:
                 res["failures"].append({"what": "comparator decision differs from the independent tree comparison",
@@ -366,38 +431,65 @@ def scenario(args):
         must_fire = kind in ("rebase_fire", "cherry_fire", "rebase_untracked_only", "cherry_untracked_only")
         if must_fire != A["fired"]:
             res["info"]["unexpected_fire_state"] = {"expected_fire": must_fire, "fired": A["fired"]}
-        # ---- per rewritten commit: notes and blame
-        remap_cases = []
-        per_commit = []
+        if A["fired"] and not A["cmp_true"]:
+            res["failures"].append({"what": "shortcut wrote notes although the comparator declined"})
+        # ---- per rewritten commit: notes
+        remap_cases, per_commit = [], []
+        last = A["new"][-1]
+        head_lines = {}
         for pos_, (sa, sb) in enumerate(zip(A["new"], B["new"])):
             na, nb = simA.note(sa), simB.note(sb)
-            ba, bb = _note_blob(simA, sa), _note_blob(simB, sb)
+            ba = _note_blob(simA, sa)
             added = hist.git_added_lines(simA, sa)
-            full, restricted, detail = compare_notes(na, nb, sa, added)
-            per_commit.append({"sha": sa, "full": full, "restricted": restricted, "bytes_equal": ba == bb})
+            surviving = {}
+            for p, ls in added.items():
+                if p not in head_lines:
+                    head_lines[p] = set(_lines_at(simA, last, p))
+                cur = _lines_at(simA, sa, p)
+                surviving[p] = set(i for i in ls if 1 <= i <= len(cur) and cur[i - 1] in head_lines[p])
+            c = compare_notes(na, nb, sa, added, surviving)
+            per_commit.append({"full": c["full"], "restricted": c["restricted"], "classes": c["classes"]})
             if A["fired"]:
-                if pos_ < len(originals) and orig_notes.get(originals[pos_]) is not None and ba is not None:
+                if orig_notes.get(originals[pos_]) is not None and ba is not None:
                     remap_cases.append({"orig": orig_notes[originals[pos_]].hex(), "target": sa, "got": ba.hex()})
-                if not restricted:
-                    res["failures"].append({"what": "shortcut note and full-replay note differ on the lines the commit added",
-                                            "commit": sa, "position": pos_ + 1, "detail": detail,
+                for b_ in c["bad"]:
+                    res["failures"].append({"what": "shortcut note and full-replay note differ: " + b_, "commit": sa,
+                                            "position": pos_ + 1, "range": len(A["new"]), "detail": c["detail"],
                                             "note_A": na and na["raw"], "note_B": nb and nb["raw"]})
-                elif not full:
-                    res["known"].append({"class": "C15-K1", "commit": sa, "position": pos_ + 1, "range": len(A["new"]),
-                                         "diff_keys": sorted(detail), "pd": detail.get("pd")})
-            else:
-                if ba != bb:
-                    res["failures"].append({"what": "shortcut declined but the result differs from the run with the shortcut disabled",
-                                            "commit": sa, "detail": detail})
+                for k_ in c["classes"]:
+                    res["known"].append({"class": "C15-" + k_, "position": pos_ + 1, "range": len(A["new"])})
+            elif not c["full"]:
+                res["failures"].append({"what": "shortcut declined but the result differs from the run with the shortcut disabled",
+                                        "commit": sa, "detail": c["detail"], "classes": c["classes"], "bad": c["bad"]})
         res["per_commit"] = per_commit
         res["remap_cases"] = remap_cases
-        # ---- (b) observational: blame of every file, at every rewritten commit and at HEAD
-        for sa, sb in list(zip(A["new"], B["new"])):
+        # ---- (b) observational: blame of every file at every rewritten commit (the last one is HEAD)
+        for sa, sb in zip(A["new"], B["new"]):
             bla, blb = _blame_all(simA, sa), _blame_all(simB, sb)
-            if bla != blb:
-                diff = {p: {"A": bla.get(p), "B": blb.get(p)} for p in set(bla) | set(blb) if bla.get(p) != blb.get(p)}
-                res["failures"].append({"what": "git-ai blame differs between shortcut and full replay", "rev": sa,
-                                        "diff": diff})
+            if bla == blb:
+                continue
+            bad = {}
+            for p in set(bla) | set(blb):
+                if bla.get(p) == blb.get(p):
+                    continue
+                if bla.get(p) is None or blb.get(p) is None:
+                    bad[p] = "blame failed"
+                    continue
+                if p not in head_lines:
+                    head_lines[p] = set(_lines_at(simA, last, p))
+                cur = _lines_at(simA, sa, p)
+                dl = [i for i in set(bla[p]) | set(blb[p]) if bla[p].get(i) != blb[p].get(i)]
+                out_k2 = [i for i in dl if not (1 <= i <= len(cur)) or cur[i - 1] in head_lines[p]]
+                if out_k2:
+                    bad[p] = {"lines": out_k2, "A": {i: bla[p].get(i) for i in out_k2}, "B": {i: blb[p].get(i) for i in out_k2}}
+            if bad:
+                res["failures"].append({"what": "git-ai blame differs between shortcut and full replay on surviving lines",
+                                        "rev": sa, "is_head": sa == last, "diff": bad})
+            elif A["fired"]:
+                res["known"].append({"class": "C15-K2", "position": A["new"].index(sa) + 1, "range": len(A["new"]),
+                                     "via": "blame"})
+            else:
+                res["failures"].append({"what": "shortcut declined but blame differs", "rev": sa})
         res["trace"] = w.trace
         if res["failures"]:
             res["log"] = simA.log[-60:]
@@ -408,46 +500,60 @@ def scenario(args):
             shutil.rmtree(simB.base, ignore_errors=True)
 
 
+def witness_k4(base):
+    """a tracked file whose name contains the marker text followed by a colon and a quoted string: the shortcut
+    rewrites the path line instead of the metadata field; blame loses the AI line (the full replay keeps it)"""
+    simA = Sim(base, "k4-A")
+    simB = None
+    try:
+        name = '"base_commit_sha":"x".txt'
+        simA.init({"a.txt": "a1\n", name: "e1\ne2\n", "o.txt": "o\n"})
+        simA.git("switch", "-q", "-c", "feature")
+        simA.checkpoint_human([name])
+        simA.write(name, "e1\ne2\nAIe\n")
+        simA.checkpoint_ai("s1", [name])
+        simA.realgit("add", "-A")
+        simA.git("commit", "-q", "-m", "f1")
+        simA.git("switch", "-q", "main")
+        simA.write("o.txt", "o\no2\n")
+        simA.realgit("add", "-A")
+        simA.git("commit", "-q", "-m", "u1")
+        simA.git("switch", "-q", "feature")
+        shutil.copytree(simA.base, os.path.join(base, "k4-B"), symlinks=True)
+        simB = Sim(base, "k4-B")
+        simB.clock = simA.clock
+        rc, _, err = simA.git("rebase", "main", env_extra={"GIT_EDITOR": "true", "GIT_AI_DEBUG": "1"})
+        simB.git("rebase", "main", env_extra={"GIT_EDITOR": "true", "GIT_AI_VERIF_NO_FAST_PATH": "1"})
+        na, nb = simA.note(simA.head()), simB.note(simB.head())
+        bla, blb = simA.blame(name), simB.blame(name)
+        fired = FIRE_LINE in err
+        fails = fired and (na is None or nb is None or na["base"] != simA.head() or set(na["files"]) != set(nb["files"])
+                           or bla != blb)
+        return {"fired": fired, "fails": bool(fails), "blame_A": bla, "blame_B": blb,
+                "paths_A": sorted(na["files"]) if na else None, "base_A": na and na["base"], "head": simA.head()}
+    finally:
+        shutil.rmtree(simA.base, ignore_errors=True)
+        if simB is not None:
+            shutil.rmtree(simB.base, ignore_errors=True)
+
+
 def plan(tier):
     items = []
     q = tier == "quick"
-    n_fire = 10 if q else 300
-    for i in range(n_fire):
+    for i in range(12 if q else 300):
         items.append({"kind": "rebase_fire"})
         items.append({"kind": "cherry_fire"})
-    for i in range(4 if q else 100):
+    for i in range(6 if q else 100):
         items.append({"kind": "rebase_fire", "ncom": 1})
         items.append({"kind": "cherry_fire", "ncom": 1})
-    for i in range(4 if q else 100):
+    for i in range(5 if q else 100):
         items.append({"kind": "rebase_untracked_only"})
         items.append({"kind": "cherry_untracked_only"})
-    for i in range(4 if q else 100):
+    for i in range(5 if q else 100):
         items.append({"kind": "rebase_tracked_upstream"})
         items.append({"kind": "cherry_tracked_upstream"})
-    for rep in range(1 if q else 25):
+    for rep in range(2 if q else 30):
         for n in (1, 2, 3, 4):
             for k in range(1, n + 1):
                 items.append({"kind": "rebase_exec_k", "ncom": n, "k": k})
     return items
-
-
-if __name__ == "__main__":
-    import sys
-    tier = sys.argv[1] if len(sys.argv) > 1 else "quick"
-    base = C.scratch_dir()
-    its = plan(tier)
-    if len(sys.argv) > 2:
-        its = [i for i in its if i["kind"] == sys.argv[2]]
-    t0 = __import__("time").time()
-    res = C.parallel_map(scenario, [(base, 20260930, i, o) for i, o in enumerate(its)])
-    print("time", __import__("time").time() - t0)
-    for r_ in res:
-        if "error" in r_:
-            print("ERROR", r_["error"][-1500:])
-            continue
-        print(r_["kind"], r_["info"], "known", len(r_["known"]), "fail", len(r_["failures"]),
-              [(c["full"], c["restricted"], c["bytes_equal"]) for c in r_.get("per_commit", [])],
-              [(c["expected"], c["actual"], c["pairs_with_delta"]) for c in r_.get("cmp_cases", [])])
-        for f in r_["failures"][:2]:
-            print("   FAIL", json.dumps(f, ensure_ascii=False)[:3000])
-    shutil.rmtree(base, ignore_errors=True)
